@@ -759,6 +759,15 @@ def rule_swallowed_raise(ctx: Ctx, prog: Program) -> None:
                             safe = True
                         if in_else and sg is not None and "zero" not in sg[1]:
                             safe = True
+                    # an earlier statement of the same block that leaves when the divisor may be zero:  if c == 0: continue
+                    for blk_name in ("body", "orelse", "finalbody"):
+                        blk = getattr(par, blk_name, None)
+                        if isinstance(blk, list) and any(cur is b_ for b_ in blk):
+                            for prev in blk[:[i for i, b_ in enumerate(blk) if b_ is cur][0]]:
+                                if isinstance(prev, ast.If) and not prev.orelse and prev.body and isinstance(prev.body[-1], (ast.Continue, ast.Break, ast.Return, ast.Raise)):
+                                    sg2 = _sign_of_test(prev.test, d.id)
+                                    if sg2 is not None and "zero" not in sg2[1]:
+                                        safe = True
                     if isinstance(par, ast.BoolOp) and isinstance(par.op, ast.And):
                         k_ = next((i for i, v_ in enumerate(par.values) if v_ is cur), None)
                         if k_ is not None and any((_sign_of_test(v_, d.id) or (SIGNS_ALL,))[0] is not SIGNS_ALL and "zero" not in _sign_of_test(v_, d.id)[0] for v_ in par.values[:k_]):
